@@ -235,3 +235,64 @@ func H_C14_rt_apostrophe() {
 	}
 	vReach("end")
 }
+
+// RM.Set accumulates: every rule of every call is kept, in order, also when a later call repeats a rule,
+// or gives a rule whose text occurs inside an earlier one (int after ints, le=10 after le=100, re after
+// required), and a value that starts with its own key survives the builder
+func H_C14_set_accumulates() {
+	lists := [][2][]string{
+		{{"required"}, {"required", "int"}},
+		{{"ints", "le=100"}, {"int", "le=10"}},
+		{{"required"}, {"re='^a'"}},
+		{{"year2month", "ge=2|min 2 and int"}, {"year", "int"}},
+		{{"to=1~5", "in=(a/b)"}, {"to=1~10", "in=(a/b)"}},
+		{{"either=1"}, {"either=1", "botheq=1"}},
+	}
+	pick := lists[vndChoice("lists", len(lists))]
+	var rm RM
+	switch vndChoice("how", 3) {
+	case 0:
+		rm = NewRule().Set("F", pick[0]...).Set("F", pick[1]...)
+	case 1:
+		rm = NewRule().Set("F,G", pick[0]...).Set("F", pick[1]...)
+	case 2:
+		rm = NewRule().Set("F", pick[0]...)
+		for _, r := range pick[1] {
+			rm.Set("G,F", r)
+		}
+	}
+	want := append(append([]string{}, pick[0]...), pick[1]...)
+	parts := ValidNamesSplit(rm.Get("F"))
+	vAssert(len(parts) == len(want), "C14 Set: the same number of rules as were set")
+	if len(parts) == len(want) {
+		for i := range parts {
+			vAssert(parts[i] == want[i], "C14 Set: rules recovered in order")
+		}
+	}
+	vReach("end")
+}
+
+func H_C14_value_starting_with_key() {
+	key := []string{VPrefix, VSuffix, VIn, VInclude, VEq, BothEq}[vndChoice("key", 6)]
+	tail := vndString("tail", 2)
+	vAssume(vNoByte(tail, ','))
+	vAssume(vNoByte(tail, '\''))
+	vAssume(vNoByte(tail, '|'))
+	vAssume(vNoByte(tail, '='))
+	vAssume(vNoByte(tail, '('))
+	vAssume(vNoByte(tail, ')'))
+	val := key + "=" + tail
+	if key == BothEq { // documented convenience: the id may be given with or without the key
+		vReach("botheq")
+		return
+	}
+	text := GenValidKV(key, val, "m")
+	parts := ValidNamesSplit(NewRule().Set("F", text).Get("F"))
+	vAssert(len(parts) == 1, "C14 value starting with its key: one rule in, one rule out")
+	if len(parts) != 1 {
+		return
+	}
+	k, v, m := ParseValidNameKV(parts[0])
+	vAssert(k == key && v == vC14Value(key, val) && m == vC14Label("m"), "C14 value starting with its key: key, value and message recovered")
+	vReach("end")
+}
